@@ -2,7 +2,7 @@
    Model: model/Color.v (kernels of jccolext.c / jdcolext.c / jdmrgext.c per layout, row pointers of
    turbojpeg-mp.c, gray extraction); generated facts: gen/GenLayouts.v. *)
 From Coq Require Import List ZArith.
-From LJT Require Import gen.GenLayouts model.Color proofs.ColorProofs model.TJFlags proofs.TJFlagsProofs.
+From LJT Require Import gen.GenLayouts model.Color proofs.ColorProofs model.TJFlags proofs.TJFlagsProofs model.Color565 proofs.Color565Proofs.
 Import ListNotations.
 Local Open Scope Z_scope.
 
@@ -161,6 +161,88 @@ Theorem C10_process_flags_bottomup : forall flags q op st,
   process_flags flags q op st F_bottomUp = b2z (has flags TJFLAG_BOTTOMUP).
 Proof. exact process_flags_bottomup. Qed.
 Print Assumptions C10_process_flags_bottomup.
+
+(* ---- round 3: range-limit table, CMYK/YCCK, RGB565 ---- *)
+(* prepare_range_limit_table (jdmaster.c; its segment list is generated from the source, one shape for 8/12/16 bit):
+   for every MAX = 2*CENTER - 1 the table is exactly: 0 below 0, identity on [0,MAX], MAX up to 2(MAX+1)+CENTER,
+   0 up to 4(MAX+1), then the first CENTER identity entries again; nothing else is allocated *)
+Theorem C10_range_limit_table_shape : forall M C i, 0 < C -> 2 * C = M + 1 ->
+  range_limit_tab M C i =
+    if (i <? - (M + 1)) then None
+    else if (i <? 0) then Some 0
+    else if (i <=? M) then Some i
+    else if (i <? 2 * (M + 1) + C) then Some M
+    else if (i <? 4 * (M + 1)) then Some 0
+    else if (i <? 4 * (M + 1) + C) then Some (i - 4 * (M + 1))
+    else None.
+Proof. exact range_limit_table_shape. Qed.
+Print Assumptions C10_range_limit_table_shape.
+
+Theorem C10_range_limit_16bit : forall i, - (MAXJ16SAMPLE + 1) <= i < 2 * (MAXJ16SAMPLE + 1) + CENTERJ16SAMPLE ->
+  range_limit_tab MAXJ16SAMPLE CENTERJ16SAMPLE i = Some (if i <? 0 then 0 else if MAXJ16SAMPLE <? i then MAXJ16SAMPLE else i).
+Proof. exact range_limit_16bit. Qed.
+Print Assumptions C10_range_limit_16bit.
+
+(* CMYK -> YCCK (jccolor.c): K untouched, Y/Cb/Cr = RGB->YCbCr of the complemented C,M,Y; only the four samples of a
+   pixel are read, so pitch / row order / padding cannot matter *)
+Theorem C10_cmyk_ycck_channels : forall p buf ip,
+  let '(y, cb, cr, k) := cmyk_ycck_pixel p buf ip in
+  k = rd buf (ip + 3) /\
+  ((p = prec8 \/ p = prec12) ->
+   0 <= rd buf ip <= sp_max p -> 0 <= rd buf (ip + 1) <= sp_max p -> 0 <= rd buf (ip + 2) <= sp_max p ->
+   (y, cb, cr) = ycc_of_rgb p (sp_max p - rd buf ip, sp_max p - rd buf (ip + 1), sp_max p - rd buf (ip + 2))).
+Proof. exact cmyk_ycck_channels. Qed.
+Print Assumptions C10_cmyk_ycck_channels.
+
+Theorem C10_cmyk_ycck_any_memory : forall p buf1 buf2 ptrs1 ptrs2 w,
+  unpack4 buf1 ptrs1 w = unpack4 buf2 ptrs2 w -> cmyk_ycck_convert p buf1 ptrs1 w = cmyk_ycck_convert p buf2 ptrs2 w.
+Proof. exact cmyk_ycck_any_memory. Qed.
+Print Assumptions C10_cmyk_ycck_any_memory.
+
+(* YCCK -> CMYK (jdcolor.c), through the real table model rl: C,M,Y = MAX - (R,G,B of YCbCr->RGB), K untouched *)
+Theorem C10_ycck_cmyk_channels : forall p, (p = prec8 \/ p = prec12) -> forall y cb cr k,
+  0 <= y <= sp_max p -> 0 <= cb <= sp_max p -> 0 <= cr <= sp_max p ->
+  let '(r, g, b) := rgb_of_ycc p (y, cb, cr) in
+  ycck_cmyk_pixel p (y, cb, cr, k) = (sp_max p - r, sp_max p - g, sp_max p - b, k).
+Proof. exact ycck_cmyk_channels. Qed.
+Print Assumptions C10_ycck_cmyk_channels.
+
+(* RGB565 (jdcol565.c): the documented 5-6-5 word *)
+Theorem C10_pack565_fields : forall r g b, 0 <= r <= 255 -> 0 <= g <= 255 -> 0 <= b <= 255 ->
+  pack565 false r g b = (r / 8) * 2048 + (g / 4) * 32 + b / 8 /\ 0 <= pack565 false r g b < 65536.
+Proof. exact pack565_fields. Qed.
+Print Assumptions C10_pack565_fields.
+
+(* source fact (generated): jdcol565.c re-initialises num_cols from output_width inside the row loop *)
+Theorem C10_source_rgb565_resets_num_cols : rgb565_numcols_reset_per_row = true.
+Proof. exact source_rgb565_resets_num_cols. Qed.
+Print Assumptions C10_source_rgb565_resets_num_cols.
+
+(* ... hence (no dithering, little-endian): whatever the alignment of the row pointers (base), the pitch, the row order
+   and the number of rows one color_convert call handles, every row gets exactly its w pixels (alignment branch, pair
+   loop, odd tail), the buffer keeps its length and nothing outside the 2*w bytes of the rows is written *)
+Theorem C10_rgb565_all_alignments : forall src base scan wn, (1 <= wn)%nat -> Z.of_nat wn < 2 ^ 32 ->
+  forall img buf ptrs,
+  length img = length ptrs -> Forall (fun row => length row = wn /\ ok16 src row) img ->
+  in_bounds (2 * Z.of_nat wn) (length buf) ptrs -> separated (2 * Z.of_nat wn) ptrs ->
+  let out := convert565 false src false base scan (Z.of_nat wn) img buf ptrs in
+  length out = length buf /\
+  (forall j, 0 <= j -> outside_rows (2 * Z.of_nat wn) ptrs j -> rd out j = rd buf j) /\
+  unpack565 false out ptrs wn = map (map (val565 src)) img.
+Proof. exact convert565_all_alignments. Qed.
+Print Assumptions C10_rgb565_all_alignments.
+
+(* regression witness (finding F54, fixed in /repo): with num_cols carried from row to row the second unaligned row of a
+   call loses its last pixel; with the per-row reset it does not *)
+Theorem C10_rgb565_carried_num_cols_defect :
+  let img := [[(255, 0, 8); (9, 10, 11); (4, 255, 8)]; [(9, 10, 11); (7, 0, 255); (9, 10, 11)]] in
+  let buf := repeat 238 18 in
+  rows565 false false 1 false 2 3 img buf [0; 8] 3 0 =
+    [1; 248; 65; 8; 225; 7; 238; 238; 65; 8; 31; 0; 238; 238; 238; 238; 238; 238] /\
+  rows565 true false 1 false 2 3 img buf [0; 8] 3 0 =
+    [1; 248; 65; 8; 225; 7; 238; 238; 65; 8; 31; 0; 65; 8; 238; 238; 238; 238].
+Proof. exact rgb565_carried_num_cols_defect. Qed.
+Print Assumptions C10_rgb565_carried_num_cols_defect.
 
 (* non-vacuity: the hypotheses of (2) and (3) hold for concrete non-trivial values *)
 Example C10_compress_example :
